@@ -75,11 +75,18 @@ def run_all(ctx, props, faults=1):
     if scn:
         ctx.sample({"generated_scenario": scn[0]})
     ctx.notes["scenarios_generated"] = len(scn)
-    t = os.path.join(w, "gen.ndjson")
-    r = vlib.xv("upload", env=CONFIGS["G"], mode="scn", seed=ctx.seed, out=t, **{"in": sp})
-    for kk, v in r["counts"].items():
-        counts[kk] = counts.get(kk, 0) + v
-    validate(ctx, t, "G-gen", props)
+    # (one process per 500 scenarios: every LocalClient keeps an LMDB environment, and LMDB takes one of the 1024
+    # pthread keys of a process per environment)
+    for b in range(0, max(len(scn), 1), 500):
+        spb = os.path.join(w, "scn_%d.ndjson" % b)
+        with open(spb, "w") as f:
+            for sc in scn[b:b + 500]:
+                f.write(json.dumps(sc) + "\n")
+        t = os.path.join(w, "gen_%d.ndjson" % b)
+        r = vlib.xv("upload", env=CONFIGS["G"], mode="scn", seed=ctx.seed, out=t, **{"in": spb})
+        for kk, v in r["counts"].items():
+            counts[kk] = counts.get(kk, 0) + v
+        validate(ctx, t, "G-gen" if b == 0 else "G-gen-%d" % b, props)
     for i, (cfg, mode, n, extra) in enumerate(plan):
         t = os.path.join(w, "%s_%s_%d.ndjson" % (cfg, mode, i))
         r = vlib.xv("upload", env=CONFIGS[cfg], mode=mode, n=n, seed=ctx.seed + 100 * i, faults=faults, out=t, **extra)
